@@ -128,11 +128,16 @@ def guarded(fn, *a, **k):
 # --------------------------------------------------------------------------- known findings
 def load_known(pid):
     p = os.path.join(HERE, "known_findings.json")
-    if not os.path.exists(p):
-        return []
     with open(p) as f:
         data = json.load(f)
-    return [e for e in data.get("findings", []) if e.get("property") == pid]
+    out = [e for e in data.get("findings", []) if e.get("property") == pid]
+    d = os.path.join(HERE, "known_findings.d")  # staging area while checks are being built
+    if os.path.isdir(d):
+        for fn in sorted(os.listdir(d)):
+            if fn.endswith(".json"):
+                with open(os.path.join(d, fn)) as f:
+                    out += [e for e in json.load(f) if e.get("property") == pid]
+    return out
 
 
 def _match_tags(match, tags):
